@@ -23,6 +23,10 @@ func randCenter3(rng *rand.Rand) V3 {
 }
 
 func randScale(rng *rand.Rand) float64 {
+	if rng.Intn(5) == 0 {
+		// other units: micrometre-sized to kilometre-sized scenes (nothing in the contract is absolute)
+		return logUniform(rng, -5, 3)
+	}
 	switch rng.Intn(3) {
 	case 0:
 		return 1
